@@ -130,6 +130,65 @@ M = [
  ('C09', 'status-handshake-uses-default-version', CONN,
   "            self.context.protocol_version \\\n                = max(self.allowed_proto_versions,\n                      key=PROTOCOL_VERSION_INDICES.get)",
   "            self.context.protocol_version = self.default_proto_version"),
+ ('C10', 'encryption-response-not-forced', CONN,
+  "            self.connection.write_packet(encryption_response, force=True)",
+  "            self.connection.write_packet(encryption_response)"),
+ ('C10', 'cipher-installed-before-response', CONN,
+  "            # Forced because we'll have encrypted the connection by the time\n            # it reaches the outgoing queue\n            self.connection.write_packet(encryption_response, force=True)\n\n            # Enable the encryption\n            cipher = encryption.create_AES_cipher(secret)\n            encryptor = cipher.encryptor()\n            decryptor = cipher.decryptor()\n            self.connection.socket = encryption.EncryptedSocketWrapper(\n                self.connection.socket, encryptor, decryptor)",
+  "            cipher = encryption.create_AES_cipher(secret)\n            encryptor = cipher.encryptor()\n            decryptor = cipher.decryptor()\n            self.connection.socket = encryption.EncryptedSocketWrapper(\n                self.connection.socket, encryptor, decryptor)\n            self.connection.write_packet(encryption_response, force=True)"),
+ ('C10', 'read-direction-not-encrypted', CONN,
+  "            self.connection.file_object = \\\n                encryption.EncryptedFileObjectWrapper(\n                    self.connection.file_object, decryptor)",
+  "            pass"),
+ ('C10', 'login-compression-not-enabled', CONN,
+  "        elif packet.packet_name == \"set compression\":\n            self.connection.options.compression_threshold = packet.threshold\n            self.connection.options.compression_enabled = True\n\n        elif packet.packet_name == \"login plugin request\":",
+  "        elif packet.packet_name == \"set compression\":\n            self.connection.options.compression_threshold = packet.threshold\n\n        elif packet.packet_name == \"login plugin request\":"),
+ ('C10', 'plugin-default-answer-successful', CONN,
+  "                    message_id=packet.message_id, successful=False))",
+  "                    message_id=packet.message_id, successful=True, data=b''))"),
+ ('C10', 'plugin-answer-wrong-id', CONN,
+  "                    message_id=packet.message_id, successful=False))",
+  "                    message_id=packet.message_id & 0x7F, successful=False))"),
+ ('C10', 'login-disconnect-swallowed', CONN,
+  "            raise LoginDisconnect('The server rejected our login attempt '\n                                  'with: \"%s\".' % msg)",
+  "            self.connection.disconnect()"),
+ ('C10', 'hash-order-wrong', ENC,
+  "    verification_hash.update(shared_secret)\n    verification_hash.update(public_key)",
+  "    verification_hash.update(public_key)\n    verification_hash.update(shared_secret)"),
+ ('C10', 'join-skipped-for-empty-server-id', CONN,
+  "            if packet.server_id != '-':", "            if packet.server_id not in ('-', ''):"),
+ ('C10', 'token-and-secret-swapped', CONN,
+  "            encryption_response.shared_secret = encrypted_secret\n            encryption_response.verify_token = token",
+  "            encryption_response.shared_secret = token\n            encryption_response.verify_token = encrypted_secret"),
+ ('C10', 'outdated-server-text-not-recognised', CONN,
+  "Outdated (client! Please use|server!", "Outdated (client! Please use|servers!"),
+ ('C10', 'play-reactor-not-installed-until-next-packet', CONN,
+  "        elif packet.packet_name == \"login success\":\n            self.connection.reactor = PlayingReactor(self.connection)",
+  "        elif packet.packet_name == \"login success\":\n            pass"),
+ ('C10', 'disconnect-text-uses-raw-json-always', CONN,
+  "                msg = json.loads(packet.json_data)['text']", "                msg = json.loads(packet.json_data)['texts']"),
+ ('C18', 'iv-is-zero', ENC,
+  "modes.CFB8(shared_secret)", "modes.CFB8(bytes(16))"),
+ ('C18', 'cfb128-instead-of-cfb8', ENC,
+  "modes.CFB8(shared_secret)", "modes.CFB(shared_secret)"),
+ ('C18', 'ctr-mode', ENC,
+  "modes.CFB8(shared_secret)", "modes.CTR(shared_secret)"),
+ ('C18', 'ofb-mode', ENC,
+  "modes.CFB8(shared_secret)", "modes.OFB(shared_secret)"),
+ ('C18', 'secret-cached-per-process', ENC,
+  "def generate_shared_secret():\n    return os.urandom(16)",
+  "_cached = []\n\n\ndef generate_shared_secret():\n    if not _cached:\n        _cached.append(os.urandom(16))\n    return _cached[0]"),
+ ('C18', 'oaep-padding', ENC,
+  "    encrypted_secret = pubkey.encrypt(shared_secret, PKCS1v15())",
+  "    from cryptography.hazmat.primitives.asymmetric.padding import OAEP, MGF1\n    from cryptography.hazmat.primitives import hashes\n    encrypted_secret = pubkey.encrypt(shared_secret, OAEP(MGF1(hashes.SHA1()), hashes.SHA1(), None))"),
+ ('C18', 'recv-uses-encryptor', ENC,
+  "        return self.decryptor.update(self.actual_socket.recv(length))",
+  "        return self.encryptor.update(self.actual_socket.recv(length))"),
+ ('C18', 'send-finalizes-per-call', ENC,
+  "        self.actual_socket.send(self.encryptor.update(data))",
+  "        self.actual_socket.send(self.encryptor.update(data))\n        if len(data) == 17:\n            self.encryptor.update(b'x')"),
+ ('C18', 'key-is-reversed-secret', ENC,
+  "    cipher = Cipher(algorithms.AES(shared_secret), modes.CFB8(shared_secret),",
+  "    cipher = Cipher(algorithms.AES(shared_secret[::-1]), modes.CFB8(shared_secret),"),
 ]
 
 
